@@ -30,12 +30,12 @@ Definition resolves (T : list entry) : Prop :=
   render (Lit (Plain (entry_sym e))) = ekey e /\
   validate ascii_oracle T false text = {| normalized := Some (ekey e); errors := []; invalid_symbols := [] |}.
 
-Lemma resolves_from raw T : new_licensing ascii_oracle raw = Ok T -> names_opfree_b ascii_oracle T = true ->
+Lemma resolves_from raw T : new_licensing ascii_oracle raw = Ok T ->
   names_have_words_b ascii_oracle T = true -> resolves T.
 Proof.
-  intros HB H1 H2 e n v text He Hn Et.
-  apply (accepted_name_resolves ascii_oracle ascii_sp_is_space ascii_kw_plain ascii_lower_space ascii_lower_nospace raw T HB
-           (opfree_reflect ascii_oracle T H1) e n v text He Hn); [|exact Et].
+  intros HB H2 e n v text He Hn Et.
+  apply (accepted_name_resolves ascii_oracle ascii_sp_is_space ascii_kw_plain ascii_paren_not_word ascii_lower_space ascii_lower_nospace raw T HB
+           e n v text He Hn); [|exact Et].
   apply (have_words_reflect ascii_oracle T H2 n v). apply in_flat_map. exists e. split; assumption.
 Qed.
 
@@ -49,13 +49,13 @@ Proof. exact (built_of_is_ok (build_spdx_licensing ascii_oracle shipped_index) s
 Theorem shipped_scancode_names_resolve : resolves (table_of (build_licensing ascii_oracle shipped_index)).
 Proof.
   exact (resolves_from (scancode_raw shipped_index) (table_of (build_licensing ascii_oracle shipped_index)) sc_built
-           (proj1 shipped_scancode_opfree) (proj2 shipped_scancode_opfree)).
+           (proj2 shipped_scancode_opfree)).
 Qed.
 
 Theorem shipped_spdx_names_resolve : resolves (table_of (build_spdx_licensing ascii_oracle shipped_index)).
 Proof.
   exact (resolves_from (spdx_raw shipped_index) (table_of (build_spdx_licensing ascii_oracle shipped_index)) sp_built
-           (proj1 shipped_spdx_opfree) (proj2 shipped_spdx_opfree)).
+           (proj2 shipped_spdx_opfree)).
 Qed.
 
 Theorem shipped_names_resolve :
